@@ -167,7 +167,8 @@ def o_C04(op, ob, before):
         out.append(Fail("C04", "%s:dest0-nonzero:ret=%s" % (op.fn, code), "dest=%s" % after[:16]))
     elif any(a != 0 and a != p for a, p in zip(after, prior)):
         out.append(Fail("C04", "%s:partial-result:ret=%s" % (op.fn, code), "dest=%s" % after[:16]))
-    elif op.meta.get("slack", 1) and (code in (ESNOSPC, ESOVRLP, ESUNTERM) or m.get("src") is None) and any(after):
+    elif op.meta.get("slack", 1) and ((code in (ESNOSPC, ESOVRLP, ESUNTERM) and code not in m.get("entry_codes", ()))
+                                      or m.get("src") is None) and any(after):
         out.append(Fail("C04", "%s:not-all-zero:ret=%s" % (op.fn, code), "dest=%s" % after[:16]))
     # a source that does not overlap dest is never modified by a failed call
     s = m.get("src")
@@ -280,7 +281,7 @@ def o_C07(op, ob, before):
 
 def o_C08(op, ob, before):
     m = op.meta
-    if ob.fault or not m.get("slackdoc") or not usable_dest(m) or failed(op, ob):
+    if ob.fault or not m.get("slackdoc") or not usable_dest(m) or failed(op, ob) or m.get("noop"):
         return []
     if m.get("retkind") == "perr" and ob.ret == "null":
         return []
